@@ -589,7 +589,7 @@ impl Driver for C14 {
                 if let Some(f) = all.first() {
                     bad = true;
                     let sig = if range == "wide" {
-                        "tableau-simplex-unreliable-on-wide-coefficient-range(spread>=50)".to_string()
+                        "tableau-simplex-unreliable-on-wide-coefficient-range(spread>=50 or min<=0.05)".to_string()
                     } else if f.magnitude.is_some_and(|m| m <= 2e-3) {
                         "tolerance-level-invariant-drift(<=2e-3 of the tableau scale)".to_string()
                     } else {
@@ -607,7 +607,7 @@ impl Driver for C14 {
             if !bad && outcome.contains("Limit") {
                 // <= 16 columns: 10 000 pivots without a verdict is cycling (or endless stalling)
                 bad = true;
-                let sig = if range == "wide" { "tableau-simplex-unreliable-on-wide-coefficient-range(spread>=50)".to_string() } else { format!("did-not-finish-within-the-iteration-limit({})", if sbs { "solve_step_by_step" } else { "solve" }) };
+                let sig = if range == "wide" { "tableau-simplex-unreliable-on-wide-coefficient-range(spread>=50 or min<=0.05)".to_string() } else { format!("did-not-finish-within-the-iteration-limit({})", if sbs { "solve_step_by_step" } else { "solve" }) };
                 out.violation(
                     &sig,
                     &format!("the solve ended with '{outcome}' after {total_pivots} pivots on a problem with {} columns", xs.vars.len()),
